@@ -153,6 +153,41 @@ func buildOps(nch int) []op {
 		}}
 	}})
 
+	// ---- the events handler refuses the opened request (e.g. the channel terminated meanwhile)
+	add(op{"open(ch0,handler-refuses-OnChannelOpened)", notShut, func(w *World) want {
+		w.H.Answer = func(c doubles.HCall) (datatransfer.Message, error) {
+			if c.Method == "OnChannelOpened" {
+				return nil, datatransfer.ErrChannelNotFound
+			}
+			return nil, nil
+		}
+		defer func() { w.H.Answer = nil }()
+		nBefore := len(w.GS.Reqs)
+		hang, _ := mc.Call(func() {
+			_ = w.T.OpenChannel(context.Background(), doubles.PeerB, w.Chans[0], root(), doubles.AllSelector(), nil, reqMsg(1, false, true))
+		})
+		if hang {
+			n := mc.Unblock()
+			return want{custom: func(Delta) string {
+				return fmt.Sprintf("OpenChannel did not return after the events handler refused the opened request (%d goroutines parked in transport locks)", n)
+			}}
+		}
+		if len(w.GS.Reqs) > nBefore {
+			// the refused request is not mapped; the channel was cleaned up by the transport
+			w.Cleaned[0] = true
+			w.Current[0] = -1
+			for r, o := range w.Owner {
+				if o == 0 {
+					delete(w.Owner, r)
+					w.Gone[r] = 0
+				}
+			}
+			w.Gone[w.GS.Reqs[len(w.GS.Reqs)-1].Num] = 0
+			w.Store[0] = false
+		}
+		return want{handler: []string{hname("OnChannelOpened", 0)}, optional: []string{hname("OnRequestCancelled", 0), hname("OnChannelCompleted", 0)}}
+	}})
+
 	// ---- incoming graphsync requests
 	incoming := func(name string, p peer.ID, ci int, exts func() map[graphsync.ExtensionName]datamodel.Node, method string, noCall bool) {
 		add(op{name, notShut, func(w *World) want {
@@ -678,6 +713,17 @@ func init4(w *World) {
 	w.Current[3] = -1
 }
 
+// propOf maps a problem description to the property whose clause it breaks (besides C16).
+func propOf(s string) string {
+	switch {
+	case containsStr(s, "do-not-send-first-blocks"), containsStr(s, "before re-opening"), containsStr(s, "before the previous one was cancelled"), containsStr(s, "queued extension"):
+		return "C10"
+	case containsStr(s, "bytes on the wire"):
+		return "C07"
+	}
+	return ""
+}
+
 func c16(x *mc.Cell, nch, depth, maxStates int) {
 	ops := buildOps(nch)
 	opName := func(i int) string { return ops[i].name }
@@ -711,9 +757,19 @@ func c16(x *mc.Cell, nch, depth, maxStates int) {
 				}
 				if wt.custom != nil {
 					if s := wt.custom(d); s != "" {
-						viol("callback-effect", s)
-						if len(s) > 14 && s[len(s)-14:] == "did not return" || containsStr(s, "did not return") {
+						if containsStr(s, "did not return") {
+							// termination is C20's clause (and C09's for closing); C16 only routes
+							msg := fmt.Sprintf("history=%v: %s\n  %s", rep.(map[string]any)["ops"], s, d)
+							x.Violate("C20", "call-did-not-return;op="+o.name, msg, rep)
+							if len(o.name) >= 5 && o.name[:5] == "close" {
+								x.Violate("C09", "transport-close-did-not-return;op="+o.name, msg, rep)
+							}
 							x.Fatal = true
+						} else {
+							viol("callback-effect", s)
+							if p := propOf(s); p != "" {
+								x.Violate(p, "transport;"+o.name, fmt.Sprintf("history=%v: %s\n  %s", rep.(map[string]any)["ops"], s, d), rep)
+							}
 						}
 					}
 				}
@@ -737,6 +793,9 @@ func c16(x *mc.Cell, nch, depth, maxStates int) {
 					for k, n := range got {
 						if n > wantm[k] && !opt[k] {
 							viol("unexpected-handler-call;"+k, fmt.Sprintf("%d x %s, expected %d", n, k, wantm[k]))
+							if containsStr(o.name, "onwire=0") {
+								x.Violate("C07", "transport;block-not-on-the-wire-accounted;"+k, fmt.Sprintf("history=%v: a block that was not put on the wire produced %s\n  %s", rep.(map[string]any)["ops"], k, d), rep)
+							}
 						}
 					}
 					for k, n := range wantm {
@@ -771,4 +830,8 @@ func containsStr(s, sub string) bool {
 func init() {
 	mc.Register("C16", "routing-2-channels", "quick", func(x *mc.Cell) { c16(x, 2, 4, 0) })
 	mc.Register("C16", "routing-3-channels", "thorough", func(x *mc.Cell) { c16(x, 3, 5, 60000) })
+	for _, p := range []string{"C20", "C09", "C10", "C07"} {
+		mc.Register(p, "transport-routing-2-channels", "quick", func(x *mc.Cell) { c16(x, 2, 3, 0) })
+		mc.Register(p, "transport-routing-3-channels", "thorough", func(x *mc.Cell) { c16(x, 3, 4, 60000) })
+	}
 }
